@@ -14,6 +14,10 @@
 //!   ym-diff    until/since against DifferenceISODate / DifferencePlainDateTimeWithRounding between the two
 //!              first-of-months (refm::relround), option validation (week/day/time units, auto smallest,
 //!              largest < smallest are RangeErrors), no day/week/time part ever, add(until) law.
+//!   ym-diff-cal until/since between year-months of one non-ISO calendar: zero exactly when both are the same
+//!              calendar month (two calendar months can lie inside one ISO month and one calendar month spans two),
+//!              sign, no day/week part, month count from the calendar's months-in-year. (The crate has no non-ISO
+//!              CalendarDateUntil yet: listed finding.)
 //!   md-routes  every construction route of one month-day agrees, reference year 1972.
 //!   md-ctor    impossible days/months x overflow x explicit reference year x field records.
 //!   md-with    PlainMonthDay::with against the field merge (currently unimplemented: unjudged).
@@ -921,6 +925,136 @@ pub fn ym_diff_case() -> BoxedStrategy<YmDiffCase> {
 }
 
 // ------------------------------------------------------------------------------------------
+// ym-diff-cal: until / since between year-months of one non-ISO calendar
+
+#[derive(Serialize, Deserialize, Debug, Clone)]
+pub struct YmCalDiffCase {
+    pub cal: u8,
+    /// epoch days of two ISO dates; the operands are the year-months of these dates in the calendar
+    pub a: i64,
+    pub b: i64,
+    pub largest: OptUnit,
+    pub since: bool,
+}
+pub struct YmCalDiffSub;
+
+pub const NON_ISO_CALS: [&str; 16] = [
+    "gregory", "japanese", "buddhist", "chinese", "coptic", "dangi", "ethioaa", "ethiopic", "hebrew", "indian", "islamic", "islamic-civil", "islamic-tbla", "islamic-umalqura",
+    "persian", "roc",
+];
+
+impl SubCheck for YmCalDiffSub {
+    type Case = YmCalDiffCase;
+    fn name(&self) -> &'static str {
+        "ym-diff-cal"
+    }
+    fn eval(&self, c: &YmCalDiffCase) -> Outcome {
+        let name = NON_ISO_CALS[c.cal as usize % NON_ISO_CALS.len()];
+        let cal = temporal_rs::Calendar::from_str(name).expect("calendar");
+        let mut o = Outcome::pass().class(name);
+        let ym_of = |n: i64| -> Option<PlainYearMonth> {
+            // (PlainDate::to_plain_year_month fails in every non-ISO calendar and records with an era are refused in
+            // most: C16's listed findings. The year + month code record is the route that works.)
+            let (y, m, d) = from_days(n);
+            let date = PlainDate::try_new(y as i32, m, d, cal.clone()).ok()?;
+            let rec = PartialDate::new().with_year(Some(date.year())).with_month_code(Some(date.month_code())).with_calendar(cal.clone());
+            let ym = PlainYearMonth::from_partial(rec, ArithmeticOverflow::Constrain).ok()?;
+            // only year-months that are the month of the date they came from (ethioaa reads the year as an era year: C16)
+            (ym.year() == date.year() && ym.month_code() == date.month_code()).then_some(ym)
+        };
+        let (pa, pb) = match (ym_of(c.a), ym_of(c.b)) {
+            (Some(a), Some(b)) => (a, b),
+            _ => return o.class("operand-not-constructible"),
+        };
+        // a calendar month is named by year and month code (the ordinal `month()` of leap months is a listed C16 finding);
+        // the order of two of them is the order of their first days
+        let key = |p: &PlainYearMonth| (p.year(), p.month_code().as_str().to_string());
+        let (ka, kb) = (key(&pa), key(&pb));
+        // the hidden ISO day is visible only in the print of a non-ISO year-month (`2011-01-06[u-ca=hebrew]`)
+        let first = |p: &PlainYearMonth| {
+            let s = p.to_string();
+            let day = s.split('[').next().and_then(|d| d.rsplit('-').next()).and_then(|d| d.parse::<u8>().ok()).unwrap_or(1);
+            to_days(p.iso_year() as i64, p.iso_month(), day)
+        };
+        let (fa, fb) = (first(&pa), first(&pb));
+        let same_iso_month = {
+            let (x, y) = (from_days(c.a), from_days(c.b));
+            (x.0, x.1) == (y.0, y.1)
+        };
+        o = o.nontrivial(ka != kb);
+        if ka != kb && same_iso_month {
+            o = o.class("distinct-calendar-months-inside-one-ISO-month");
+        }
+        if ka == kb && !same_iso_month {
+            o = o.class("one-calendar-month-across-two-ISO-months").nontrivial(true);
+        }
+        let st = diff_settings(c.largest.to_api(), None, None, None);
+        let got = if c.since { pa.since(&pb, st) } else { pa.until(&pb, st) };
+        let got_s = match &got {
+            Ok(d) => format!("Ok({:?})", &duration_fields(d)[..4]),
+            Err(e) => err_str(e),
+        };
+        let ctx_s = format!("{} {:?} -> {:?}", name, ka, kb);
+        if ka == kb {
+            return match &got {
+                Ok(d) if duration_fields(d).iter().all(|v| *v == 0.0) => o,
+                _ => o.fail("C18/ym.diff.cal/same-month-not-zero", format!("zero duration ({ctx_s})"), got_s),
+            };
+        }
+        match &got {
+            Err(e) if e.kind() == ErrorKind::Range && err_str(e).contains("Not yet implemented") => {
+                // non-ISO CalendarDateUntil is a missing feature of the crate (listed finding)
+                o.fail("C18/ym.diff.cal/non-iso-date-until-not-implemented", format!("a non-zero count of months ({ctx_s})"), got_s)
+            }
+            Err(_) => o.fail("C18/ym.diff.cal/unexpected-error", format!("a non-zero count of months ({ctx_s})"), got_s),
+            Ok(d) => {
+                let f = duration_fields(d);
+                let want_sign = if (fb > fa) != c.since { 1.0 } else { -1.0 };
+                let sign = f.iter().copied().find(|v| *v != 0.0).map(f64::signum).unwrap_or(0.0);
+                if sign == 0.0 {
+                    return o.fail("C18/ym.diff.cal/zero-for-distinct-months", format!("a non-zero count of months ({ctx_s})"), got_s);
+                }
+                if sign != want_sign {
+                    return o.fail("C18/ym.diff.cal/sign", format!("sign {want_sign} ({ctx_s})"), got_s);
+                }
+                if f[2..].iter().any(|v| *v != 0.0) {
+                    return o.fail("C18/ym.diff.cal/day-or-week-part", format!("years and months only ({ctx_s})"), got_s);
+                }
+                // largest unit month: the number of calendar months between the two = the number of first-of-months
+                // passed on the way from the earlier first day to the later one
+                if matches!(c.largest, OptUnit::Is(U::Month)) {
+                    let (lo, hi) = (fa.min(fb), fa.max(fb));
+                    let mut n = 0i64;
+                    let mut ok = true;
+                    for day in lo + 1..=hi {
+                        let (y, m, d) = from_days(day);
+                        match PlainDate::try_new(y as i32, m, d, cal.clone()) {
+                            Ok(p) => n += (p.day() == 1) as i64,
+                            Err(_) => ok = false,
+                        }
+                    }
+                    if ok {
+                        let want = n as f64 * want_sign;
+                        if !(f[0] == 0.0 && f[1] == want) {
+                            return o.fail("C18/ym.diff.cal/month-count", format!("{want} months ({ctx_s})"), got_s);
+                        }
+                    }
+                }
+                o
+            }
+        }
+    }
+}
+
+pub fn ym_cal_diff_case() -> BoxedStrategy<YmCalDiffCase> {
+    let largest = prop_oneof![3 => Just(OptUnit::Absent), 1 => Just(OptUnit::Auto), 3 => Just(OptUnit::Is(U::Year)), 4 => Just(OptUnit::Is(U::Month))];
+    // ISO dates 1900..2100 (every calendar's arithmetic is well inside its supported range there)
+    let a = -25_000i64..=47_000;
+    let delta = prop_oneof![4 => -35i64..=35, 3 => -400i64..=400, 1 => -1500i64..=1500];
+    (0u8..NON_ISO_CALS.len() as u8, a, delta, largest, any::<bool>()).prop_map(|(cal, a, d, largest, since)| YmCalDiffCase { cal, a, b: a + d, largest, since }).boxed()
+}
+
+// ------------------------------------------------------------------------------------------
 // md-routes
 
 #[derive(Serialize, Deserialize, Debug, Clone)]
@@ -1242,6 +1376,7 @@ pub fn run(ctx: &mut Ctx) {
 
     ctx.run_prop(&YmAddSub, &ym_add_case, t.pick(3_000_000, 20_000_000));
     ctx.run_prop(&YmDiffSub, &ym_diff_case, t.pick(2_500_000, 20_000_000));
+    ctx.run_prop(&YmCalDiffSub, &ym_cal_diff_case, t.pick(200_000, 3_000_000));
 
     let mds = md_route_cases(seed);
     ctx.run_enum(&MdRouteSub, mds.len() as u64, &|i| mds[i as usize].clone(), true);
@@ -1257,6 +1392,7 @@ pub fn replay(ctx: &mut Ctx, sub: &str, case: &Value) -> bool {
         "ym-ctor" => ctx.replay_case(&YmCtorSub, case),
         "ym-add" => ctx.replay_case(&YmAddSub, case),
         "ym-diff" => ctx.replay_case(&YmDiffSub, case),
+        "ym-diff-cal" => ctx.replay_case(&YmCalDiffSub, case),
         "md-routes" => ctx.replay_case(&MdRouteSub, case),
         "md-ctor" => ctx.replay_case(&MdCtorSub, case),
         "md-with" => ctx.replay_case(&MdWithSub, case),
